@@ -251,8 +251,18 @@ func (s *Sim) PlayHand(plan SignalPlan) *Hand {
 	// init/rotation means the engine entered its 3 s x 10 retry loop (holding its lock)
 	smLo := s.SM.NumCalls()
 	deadline := time.Now().Add(s.openWait(plan) + s.OpenWaitExtra)
+	extended := false
 	var ev *Event
-	for ev == nil && time.Now().Before(deadline) {
+	for ev == nil {
+		if !time.Now().Before(deadline) {
+			if extended || !starved() {
+				break
+			}
+			// oversubscribed machine: give the gate's 2 s timer and the open four more bounds
+			extended = true
+			deadline = time.Now().Add(4 * (s.openWait(plan) + s.OpenWaitExtra))
+			s.Label("wait_extended_machine_starved")
+		}
 		ev = s.waitForD(50*time.Millisecond, func(ev *Event) bool {
 			if ev.Kind == "error" {
 				return true
